@@ -163,6 +163,67 @@ def indexOK (t : Tables) (cx : Ctx) (name : String) (a0 a1 : Int) : Bool :=
   | "Delete" | "DeleteAll" | "CallLengthArray" | "CallSplit" | "CallSplitSep" => arrayOK t cx a0 a1
   | _ => true
 
+/-- The instruction `name` with inline operands `a` (`n` of them) at `pc` of a block of `codeLen` words; `rest` = the words after
+the fixed operands (CallUser's array arguments). `none` = a jump that leaves the block, an index outside its table, … -/
+def decodeNamed (t : Tables) (cx : Ctx) (codeLen pc : Nat) (rest : List Int) (name : String) (n : Nat) (a : List Int) : Option Instr :=
+  let a0 := a.getD 0 0
+  let a1 := a.getD 1 0
+  let len := 1 + n
+  match fixedEffect name with
+  | some (pops, pushes) => if indexOK t cx name a0 a1 then some (.simple len pops pushes) else none
+  | none =>
+    match name with
+    | "IndexMulti" | "ConcatMulti" => if 0 ≤ a0 then some (.simple len a0.toNat 1) else none
+    | "CallSprintf" => if 1 ≤ a0 then some (.simple len a0.toNat 1) else none
+    | "Nulls" => if 0 ≤ a0 then some (.simple len 0 a0.toNat) else none
+    | "CallNative" => if inRange a0 t.nNative && decide (0 ≤ a1) then some (.simple len a1.toNat 1) else none
+    | "CallBuiltin" =>
+      if a0 < 0 then none else
+      match Opcodes.builtinOps[a0.toNat]? with
+      | none => none
+      | some b => match builtinEffect b with
+        | none => none
+        | some (pops, pushes) => some (.simple len pops pushes)
+    | "Print" =>
+      match outRedirect a1 with
+      | none => none
+      | some r => if 0 ≤ a0 then some (.simple len (a0.toNat + r) 0) else none
+    | "Printf" =>
+      match outRedirect a1 with
+      | none => none
+      | some r => if 1 ≤ a0 then some (.simple len (a0.toNat + r) 0) else none
+    | "Getline" => (inRedirect a0).map fun r => .simple len r 1
+    | "GetlineField" => (inRedirect a0).map fun r => .simple len (r + 1) 1
+    | "GetlineGlobal" => if inRange a1 t.nScalars then (inRedirect a0).map fun r => .simple len r 1 else none
+    | "GetlineLocal" => if cx.inFunc && inRange a1 cx.nLocals then (inRedirect a0).map fun r => .simple len r 1 else none
+    | "GetlineSpecial" => if specialOK a1 then (inRedirect a0).map fun r => .simple len r 1 else none
+    | "GetlineArray" => if arrayOK t cx a1 (a.getD 2 0) then (inRedirect a0).map fun r => .simple len (r + 1) 1 else none
+    | "Jump" | "JumpFalse" | "JumpTrue" | "JumpEquals" | "JumpNotEquals" | "JumpLess" | "JumpGreater"
+    | "JumpLessOrEqual" | "JumpGreaterOrEqual" =>
+      let tgt : Int := (pc + len : Nat) + a0
+      if 0 ≤ tgt && decide (tgt.toNat ≤ codeLen) then
+        some (.jump len (if name = "Jump" then 0 else if name = "JumpFalse" || name = "JumpTrue" then 1 else 2)
+          (name != "Jump") tgt.toNat)
+      else none
+    | "Next" | "Nextfile" | "Exit" => some (.halt 0)
+    | "ExitStatus" => some (.halt 1)
+    | "Return" => some (.ret 1)
+    | "ReturnNull" => some (.ret 0)
+    | "BreakForIn" => some .brk
+    | "ForIn" =>
+      let off := a.getD 4 0
+      if varOK t cx a0 a1 && arrayOK t cx (a.getD 2 0) (a.getD 3 0) && decide (0 ≤ off)
+          && decide (pc + len + off.toNat ≤ codeLen) then some (.forIn len off.toNat) else none
+    | "CallUser" =>
+      match t.funcs[a0.toNat]? with
+      | none => none
+      | some f =>
+        if a0 < 0 || a1 < 0 then none else
+        let k := a1.toNat
+        if k > f.numArrays || pc + len + 2 * k > codeLen then none else
+        if arrayArgsOK t cx (rest.take (2 * k)) then some (.call (len + 2 * k) a0.toNat) else none
+    | _ => none
+
 /-- Decode the instruction at `pc` of a block: `none` = undecodable (unknown opcode, operands run past the end of the block, a jump
 that leaves the block, an index outside its table). -/
 def decode (t : Tables) (cx : Ctx) (code : Code) (pc : Nat) : Option Instr :=
@@ -177,64 +238,7 @@ def decode (t : Tables) (cx : Ctx) (code : Code) (pc : Nat) : Option Instr :=
       | none => none
       | some n =>
         if pc + 1 + n > code.length then none else
-        let a := (code.drop (pc + 1)).take n
-        let a0 := a.getD 0 0
-        let a1 := a.getD 1 0
-        let len := 1 + n
-        match fixedEffect name with
-        | some (pops, pushes) => if indexOK t cx name a0 a1 then some (.simple len pops pushes) else none
-        | none =>
-          match name with
-          | "IndexMulti" | "ConcatMulti" => if 0 ≤ a0 then some (.simple len a0.toNat 1) else none
-          | "CallSprintf" => if 1 ≤ a0 then some (.simple len a0.toNat 1) else none
-          | "Nulls" => if 0 ≤ a0 then some (.simple len 0 a0.toNat) else none
-          | "CallNative" => if inRange a0 t.nNative && decide (0 ≤ a1) then some (.simple len a1.toNat 1) else none
-          | "CallBuiltin" =>
-            if a0 < 0 then none else
-            match Opcodes.builtinOps[a0.toNat]? with
-            | none => none
-            | some b => match builtinEffect b with
-              | none => none
-              | some (pops, pushes) => some (.simple len pops pushes)
-          | "Print" =>
-            match outRedirect a1 with
-            | none => none
-            | some r => if 0 ≤ a0 then some (.simple len (a0.toNat + r) 0) else none
-          | "Printf" =>
-            match outRedirect a1 with
-            | none => none
-            | some r => if 1 ≤ a0 then some (.simple len (a0.toNat + r) 0) else none
-          | "Getline" => (inRedirect a0).map fun r => .simple len r 1
-          | "GetlineField" => (inRedirect a0).map fun r => .simple len (r + 1) 1
-          | "GetlineGlobal" => if inRange a1 t.nScalars then (inRedirect a0).map fun r => .simple len r 1 else none
-          | "GetlineLocal" => if cx.inFunc && inRange a1 cx.nLocals then (inRedirect a0).map fun r => .simple len r 1 else none
-          | "GetlineSpecial" => if specialOK a1 then (inRedirect a0).map fun r => .simple len r 1 else none
-          | "GetlineArray" => if arrayOK t cx a1 (a.getD 2 0) then (inRedirect a0).map fun r => .simple len (r + 1) 1 else none
-          | "Jump" | "JumpFalse" | "JumpTrue" | "JumpEquals" | "JumpNotEquals" | "JumpLess" | "JumpGreater"
-          | "JumpLessOrEqual" | "JumpGreaterOrEqual" =>
-            let tgt : Int := (pc + len : Nat) + a0
-            if 0 ≤ tgt && decide (tgt.toNat ≤ code.length) then
-              some (.jump len (if name = "Jump" then 0 else if name = "JumpFalse" || name = "JumpTrue" then 1 else 2)
-                (name != "Jump") tgt.toNat)
-            else none
-          | "Next" | "Nextfile" | "Exit" => some (.halt 0)
-          | "ExitStatus" => some (.halt 1)
-          | "Return" => some (.ret 1)
-          | "ReturnNull" => some (.ret 0)
-          | "BreakForIn" => some .brk
-          | "ForIn" =>
-            let off := a.getD 4 0
-            if varOK t cx a0 a1 && arrayOK t cx (a.getD 2 0) (a.getD 3 0) && decide (0 ≤ off)
-                && decide (pc + len + off.toNat ≤ code.length) then some (.forIn len off.toNat) else none
-          | "CallUser" =>
-            match t.funcs[a0.toNat]? with
-            | none => none
-            | some f =>
-              if a0 < 0 || a1 < 0 then none else
-              let k := a1.toNat
-              if k > f.numArrays || pc + len + 2 * k > code.length then none else
-              if arrayArgsOK t cx ((code.drop (pc + len)).take (2 * k)) then some (.call (len + 2 * k) a0.toNat) else none
-          | _ => none
+        decodeNamed t cx code.length pc (code.drop (pc + 1 + n)) name n ((code.drop (pc + 1)).take n)
 
 /-! ### the abstract machine -/
 
